@@ -10,3 +10,5 @@ import ExaModel.Props.C05
 #print axioms Exa.Props.C05.transports_closed_or_current
 #print axioms Exa.Props.C05.up_down_alternate
 #print axioms Exa.Props.C05.handle_connection_py_is_model
+#print axioms Exa.Props.C05.can_reconnect_py_is_model
+#print axioms Exa.Props.C05.reset_py_is_model
